@@ -231,6 +231,9 @@ def ir_calls(ix, fn, irfile):
             args = [var_idx.get(base, 999)]
             flags = [0, 0, 0, int(bool(st.get("addr")))]
             tk = "field"
+        if 999 in args:
+            probs.append("an argument of the generated %s for %s is not one of the injector's parameters or of the values built before it "
+                         "(statement: %s)" % (tk, lhs[0], {k_: v_ for k_, v_ in st.items() if k_ in ("fn", "args", "fields", "type", "base", "sel")}))
         var_idx[lhs[0]] = ng + pos
         var_type[lhs[0]] = out
         pos += 1
